@@ -54,8 +54,8 @@ fn garble(bytes: &[u8], salt: u64, what: u8) -> Vec<u8> {
         if what == 1 {
             let o = w.offset as usize;
             for j in 0..64 {
-                // keep: header id/size (0,1), FEE id (2,3 -> dispatch), offset/memory size (8..12), link (12), data format (24)
-                if matches!(j, 0..=3 | 8..=12 | 24) {
+                // keep: FEE id (2,3 -> dispatch), offset/memory size (8..12), link (12), data format (24)
+                if matches!(j, 2..=3 | 8..=12 | 24) {
                     continue;
                 }
                 out[o + j] = (fnv(&[salt.to_le_bytes().as_slice(), &(o as u32 + j as u32).to_le_bytes(), &[7]].concat()) >> 17) as u8;
